@@ -47,13 +47,13 @@ struct Tracked {
   uint32_t state;
   Tracked() : v(0), state(kAlive) { ++trackStats().constructed; ++trackStats().live; }
   Tracked(int x) : v(x), state(kAlive) { ++trackStats().constructed; ++trackStats().live; }
-  Tracked(const Tracked& o) : v(o.v), state(kAlive) {
-    if (o.state == kDead) ++trackStats().useDead;
+  // the source's liveness is read before any member of *this is written: the source may alias *this
+  static int readSrc(const Tracked& o) { if (o.state == kDead) ++trackStats().useDead; return o.v; }
+  Tracked(const Tracked& o) : v(readSrc(o)), state(kAlive) {
     ++trackStats().constructed; ++trackStats().live;
   }
-  Tracked(Tracked&& o) noexcept : v(o.v), state(kAlive) {
-    if (o.state == kDead) ++trackStats().useDead;
-    o.state = kMoved; o.v = -1;
+  Tracked(Tracked&& o) noexcept : v(readSrc(o)), state(kAlive) {
+    if (&o != this) { o.state = kMoved; o.v = -1; }
     ++trackStats().constructed; ++trackStats().live;
   }
   Tracked& operator=(const Tracked& o) {
